@@ -292,11 +292,28 @@ pub struct PointsCase {
     pub groups: Vec<Group>,
     /// (index fraction, copies): duplicate that point `copies` times
     pub duplicates: Vec<(u16, u8)>,
+    /// the azimuth is an angle: 0 = as generated; 1 = every other point written
+    /// one turn lower, 2 = a pseudo-random third of the points one turn higher,
+    /// 3 = both (neighbouring points then differ by up to two turns in `phi`
+    /// while sitting where they sat)
+    #[serde(default)]
+    pub turns: u8,
 }
 impl PointsCase {
     pub fn points(&self) -> Vec<SpacePoint> {
         let mut p: Vec<SpacePoint> = self.groups.iter().flat_map(points_of).collect();
         p.truncate(2000);
+        if self.turns != 0 {
+            let full = Angle::new::<radian>(2.0 * PI);
+            for (i, q) in p.iter_mut().enumerate() {
+                if self.turns & 1 != 0 && i % 2 == 1 {
+                    q.phi -= full;
+                }
+                if self.turns & 2 != 0 && crate::props::mix(0x7412, i as u64) % 3 == 0 {
+                    q.phi += full;
+                }
+            }
+        }
         for &(f, c) in &self.duplicates {
             if !p.is_empty() {
                 let q = p[crate::gen::pick(f, p.len())];
@@ -311,7 +328,14 @@ impl PointsCase {
     }
 }
 pub fn points_case(max_n: u16) -> impl Strategy<Value = PointsCase> {
-    (vec(group(max_n), 0..=6), prop_oneof![3 => vec((any::<u16>(), 1u8..4), 0..=0), 1 => vec((any::<u16>(), 1u8..20), 1..=4)]).prop_map(|(groups, duplicates)| PointsCase { groups, duplicates })
+    (vec(group(max_n), 0..=6), prop_oneof![3 => vec((any::<u16>(), 1u8..4), 0..=0), 1 => vec((any::<u16>(), 1u8..20), 1..=4)]).prop_map(|(groups, duplicates)| PointsCase { groups, duplicates, turns: 0 })
+}
+/// The same, with one case in five written with azimuths in mixed turns.
+pub fn points_case_turns(max_n: u16) -> impl Strategy<Value = PointsCase> {
+    (points_case(max_n), prop_oneof![4 => Just(0u8), 1 => 1u8..=3]).prop_map(|(mut c, turns)| {
+        c.turns = turns;
+        c
+    })
 }
 
 // ------------------------------------------------------------------ helices
